@@ -301,7 +301,7 @@ def run(chk):
         chk.check(len(att) == 1 and rdef("entry", lp) == "od[index]", "R10", f"{E}:import_eds | name list: each copy attached to od[index]", ie.loc(c), f"{[src(a) for a in att]}; entry = {rdef('entry', lp)}")
         for a in att:
             g = [(fi.norm(e, subst=False), p) for e, p in fi.facts_at(fi.stmt_of(a)) if "match is" not in fi.norm(e, subst=False)]
-            chk.check(g == [(f"{tgt} is not None", True)] or g == [(f"{tgt} is None", False)], "R10", f"{E}:import_eds | name list: every present copy attached", ie.loc(a), f"attached under {g}")
+            chk.check(g in ([(f"{tgt} is not None", True)], [(f"{tgt} is None", False)], []), "R10", f"{E}:import_eds | name list: every present copy attached", ie.loc(a), f"attached under {g}")
     # (c) index sections: the object built from the section is the one added, under the index in the section name
     addobj = [c for c in ast.walk(ie.node) if isinstance(c, ast.Call) and dotted(c.func) == "od.add_object"]
     made = {}
